@@ -16,6 +16,12 @@ def S (s : String) : Str := s.toList.map Char.toNat
 
 def isSpace (c : Nat) : Bool := Gen.C34.pySpace.contains c
 def lstrip (s : Str) : Str := s.dropWhile isSpace
+def rstrip (s : Str) : Str := (s.reverse.dropWhile isSpace).reverse
+def strip (s : Str) : Str := rstrip (lstrip s)
+/-- `str.isalpha()` of one character (generated ranges) -/
+def isAlphaC (c : Nat) : Bool := Gen.C34.pyAlphaRanges.any (fun r => r.1 ≤ c && c ≤ r.2)
+/-- `s.isalpha()`: non-empty and alphabetic throughout -/
+def isAlphaStr (s : Str) : Bool := !s.isEmpty && s.all isAlphaC
 def lowerC (c : Nat) : Nat := if 65 ≤ c ∧ c ≤ 90 then c + 32 else c
 def lower (s : Str) : Str := s.map lowerC
 
@@ -93,14 +99,15 @@ structure ScState where
   cookies : List (List (Str × Option Str))
   pairs : List (Str × Option Str)
 
-/-- one round of `_read_set_cookie_pairs` -/
+/-- one round of `_read_set_cookie_pairs` (as of e0e81be4a / 8cc872297: an `expires` value is read on past a comma only when it
+    stopped AT that comma and is, stripped, a purely alphabetic token — the weekday name) -/
 def scStep (st : ScState) (s : Str) : ScState × Str :=
   let lhs := lstrip (readUntil isSemiEqComma s).1
   let r1 := (readUntil isSemiEqComma s).2
   let pr : List (Str × Option Str) × Str := match r1 with
     | 61 :: r =>
       let v := readValue isSemiComma r
-      if lower lhs = S "expires" ∧ v.1.length ≤ 3 then
+      if lower lhs = S "expires" ∧ v.2.head? = some 44 ∧ isAlphaStr (strip v.1) = true then
         let t := readValue isSemiComma (v.2.drop 1)
         (st.pairs ++ [(lhs, some (v.1 ++ 44 :: t.1))], t.2)
       else (st.pairs ++ [(lhs, some v.1)], v.2)
